@@ -27,6 +27,10 @@ type SimStomp struct {
 	Acks      []string
 	OnSend    func(destination string, body []byte) bool
 	OnDeliver func(destination string, body []byte)
+	// Prefetch > 0: at most that many unacknowledged MESSAGEs per connection (what real brokers call the
+	// prefetch limit); the rest waits at the broker. Keeps a backlog out of go-stomp's own goroutines, whose
+	// native select between inbound frames and outbound requests would otherwise decide by runtime random.
+	Prefetch int
 }
 
 type stompSub struct {
@@ -44,6 +48,8 @@ type stompConn struct {
 	inEv, outEv bool
 	wch         chan *frame.Frame
 	closed      bool
+	unacked     int
+	held        []*frame.Frame
 }
 
 func NewSimStomp(rc *RunCtx) *SimStomp { return &SimStomp{rc: rc, s: rc.Sim} }
@@ -103,6 +109,14 @@ func (c *stompConn) enqueueOut(f *frame.Frame) {
 	if c.closed {
 		b.mu.Unlock()
 		return
+	}
+	if f.Command == frame.MESSAGE && b.Prefetch > 0 {
+		if c.unacked >= b.Prefetch {
+			c.held = append(c.held, f)
+			b.mu.Unlock()
+			return
+		}
+		c.unacked++
 	}
 	c.outQ = append(c.outQ, f)
 	need := !c.outEv
@@ -185,7 +199,18 @@ func (c *stompConn) processIn() {
 	case frame.ACK:
 		b.mu.Lock()
 		b.Acks = append(b.Acks, f.Header.Get(frame.Id))
+		var next *frame.Frame
+		if b.Prefetch > 0 {
+			c.unacked--
+			if len(c.held) > 0 && c.unacked < b.Prefetch {
+				next = c.held[0]
+				c.held = c.held[1:]
+			}
+		}
 		b.mu.Unlock()
+		if next != nil {
+			c.enqueueOut(next)
+		}
 		receipt()
 	case frame.NACK:
 		receipt()
@@ -243,7 +268,7 @@ func (b *SimStomp) Pending() int {
 	defer b.mu.Unlock()
 	n := 0
 	for _, c := range b.conns {
-		n += len(c.inQ) + len(c.outQ)
+		n += len(c.inQ) + len(c.outQ) + len(c.held)
 	}
 	return n
 }
